@@ -19,13 +19,20 @@ using namespace tbb;
 #else
 #define PADBYTES 0          // sizeof 4   -> 32 items per page
 #endif
+#if FAULTS
+extern "C" void vp_ctor_fault();
+#endif
 struct elem_t {
   unsigned v;
 #if PADBYTES
   unsigned char pad[PADBYTES];
 #endif
   elem_t() {}
+#if FAULTS
+  elem_t(const elem_t& o) : v(o.v) { vp_ctor_fault(); }   // the element copy constructor may throw (harness-controlled fault position)
+#else
   elem_t(const elem_t& o) : v(o.v) {}
+#endif
   elem_t& operator=(const elem_t& o) { v = o.v; return *this; }
 };
 #if BOUNDED
@@ -45,8 +52,14 @@ static inline void do_op(queue_t* q, int tid, int slot, int op, unsigned val) {
   if (op == OP_PUSH) {
     elem_t e; e.v = val;
     vp_inv(tid, slot, OP_PUSH, val);
+#if FAULTS
+    bool ok = true;
+    try { q->push(e); } catch (...) { ok = false; }       // exceptions on: the push may fail (constructor fault); nothing may escape a thread body
+    vp_res(tid, slot, ok, val);
+#else
     q->push(e);
     vp_res(tid, slot, 1, val);
+#endif
   } else if (op == OP_TRYPOP) {
     elem_t e; e.v = 0;
     vp_inv(tid, slot, OP_TRYPOP, 0);
